@@ -13,13 +13,11 @@ the property from the game model `RP.Game` and the codecs.
 * `C10_fresh_uniform`, `C10_fresh_sums_to_one`, `C10_known_untouched` : `Profile::witness`.
 * `C10_pick_interval` : the inverse-CDF choice of `explore_one` picks edge `j` exactly when the
   uniform draw lies in an interval of length `w_j` (probability `w_j / Σw`; PRNG trusted).
-* `C10_builder_partial` : the model's own builder (`Blueprint::tree` with an oracle for the random
-  choices) produces accepted trees — proved here for concrete oracles by kernel evaluation, so
-  the acceptor is not vacuous.  The for-all-oracles statement
-  `∀ o w h0 h1 fuel t, build o w h0 h1 fuel = some t → acceptTree t = true`
-  is NOT proved: it needs (a) the game invariant that a non-terminal state has a legal action and
-  (b) a bound on the length of a betting round (the 16-edge window of `subgame`), both game-level
-  lemmas outside this file.
+* `C10_builder` (file `RP/Props/C10Builder.lean`) : the model's own builder (`Blueprint::tree` with an
+  oracle for the random choices) is accepted, for EVERY oracle, both traversers, every valid deal
+  and every fuel.  `C10_builder_instances` below: for concrete oracles the builder does return
+  trees (2, 7, 59 nodes) and they are accepted (kernel evaluation), so neither the acceptor nor
+  the hypothesis of `C10_builder` is vacuous.
 * `pinned_subgame_window` : the window pinned before commit 27e1509 (counted from the start of the
   hand) exceeds the raise cap; refuted by evaluation. -/
 namespace RP.C10
@@ -316,9 +314,9 @@ def built1 : Option (Nat × Bool) := (build (orc 1) 0 hole0 hole1 1000).map (fun
 def built2 : Option (Nat × Bool) := (build (orcK 2) 0 hole0 hole1 1000).map (fun t => (t.size, acceptTree t))
 def built3 : Option (Nat × Bool) := (build (orc 1) 1 hole0 hole1 1000).map (fun t => (t.size, acceptTree t))
 
-/-- **C10 (builder, partial).** For these oracles the model of `Blueprint::tree` returns a tree and
+/-- **C10 (builder, instances).** For these oracles the model of `Blueprint::tree` returns a tree and
     the acceptor accepts it (2, 7 and 59 nodes; both traversers; kernel evaluation). -/
-theorem C10_builder_partial :
+theorem C10_builder_instances :
     built1 = some (2, true) ∧ built2 = some (7, true) ∧ built3 = some (59, true) := by
   refine ⟨by decide +kernel, by decide +kernel, by decide +kernel⟩
 
